@@ -1,3 +1,5 @@
+//go:build drv_hash || drv_all
+
 package main
 
 import (
